@@ -101,6 +101,7 @@ func startWatchdog() {
 func execOnce(t *testing.T, w *World, c *Choices, prop, tier string, quiet bool, limit time.Duration) *Run {
 	r := newRun(c, prop, tier)
 	r.Quiet = quiet
+	r.Live = os.Getenv("VERIF_LIVE") != ""
 	watchdogInfo.Store(fmt.Sprintf("world=%s prop=%s seed=%d prefix=%d", w.Name, prop, c.Seed, len(c.Prefix)))
 	watchdogDeadline.Store(time.Now().Add(limit).UnixNano())
 	func() {
@@ -163,6 +164,24 @@ func Main(t *testing.T, w *World) {
 		os.Exit(doReplay(t, w, rp, runLimit))
 	}
 
+	if rs := os.Getenv("VERIF_RUN_SEED"); rs != "" {
+		// debugging aid: execute exactly one run seed in search mode and print its event log
+		v, _ := strconv.ParseUint(rs, 10, 64)
+		c := NewChoices(v)
+		go func() {
+			time.Sleep(time.Duration(envInt("VERIF_RUN_SEED_DUMP_S", 20)) * time.Second)
+			fmt.Println("RUN_SEED: still running, choices so far:", c.Values())
+		}()
+		r := execOnce(t, w, c, prop, tier, false, runLimit)
+		for _, e := range r.Events() {
+			fmt.Println("   ", e)
+		}
+		fmt.Println("choices:", c.Values())
+		if v := r.Violation(); v != nil {
+			fmt.Println("violation:", v.Error())
+		}
+		os.Exit(0)
+	}
 	res := partial{Property: prop, World: w.Name, Tier: tier, Seed: seed, Worker: fmt.Sprintf("%d/%d", wk, wn),
 		Faults: map[string]int{}, Probes: map[string]int{}, Extra: map[string]int{}, KnownHits: map[string]int{}}
 	sigs := map[uint64]bool{}
